@@ -239,6 +239,10 @@ func (s *Scope) Set(sym Symbol, value Object) {
 		}
 		return
 	}
+	if 0 < len(sym) && sym[0] == ':' {
+		// A keyword evaluates to itself, it is a constant.
+		PackagePanic(s, 0, &KeywordPkg, "%s is a constant and thus can't be set", sym)
+	}
 	if !s.set(strings.ToLower(string(sym)), value) {
 		CurrentPackage.Set(string(sym), value)
 	}
